@@ -320,6 +320,10 @@ def check_C16(rep, fl):
     import props_panic
     props_panic.check_builder_plumbing(rep, fl, only_sites=("default ignore_internal_cost", "set_ignore_internal_cost", "flags -> processor", "key builder / coster / callback", "set_* keeps ignore_internal_cost", "set_* keeps coster"))
     props_store.check_sweeper(rep, fl)
+    # "the cost reported to on_evict .. equals the charged cost": an entry that add() un-charged leaves the store then
+    # and there, with that cost - a victim left behind is reported later (by the sweep) with the cost of an untracked key
+    import props_life as _pl
+    _pl.check_handle_item_pairing(rep, fl, rule="R16.5", collisions=False, only_sites=("victims inspected on every path", "victim => try_remove(victim.key, 0)"))
 
 
 # ----------------------------------------------------------------------------------------
@@ -1062,6 +1066,9 @@ def check_C17(rep, fl):
     import props_life
     import props_store
     props_store.keep_sites(rep, fl, props_life.check_clear, ("drain + policy/store/metrics", "always requests", "waits for the processor", "clear arm"))
+    # ... and on the processor only, between two items: a reset from a client thread wipes what the processor has
+    # counted for entries that stay charged
+    props_life.check_clear_affinity(rep, fl, rule="R17.7", callees=("metrics::Metrics::clear",))
     # "with metrics enabled": the flag creates the Op metrics and hands the same handle to the policy, and the
     # setters carry the flag
     import props_panic
